@@ -693,6 +693,7 @@ fn process(line: &str, ctx: &mut Ctx) -> Out {
         "rep" => extra::case_rep(&id, &v),
         "det" => extra::case_det(&id, &v),
         "rt" => extra::case_rt(&id, &v),
+        "prim" => extra::case_prim(&id, &v),
         _ => None,
     }));
     match r {
